@@ -3,6 +3,9 @@ import Pyunicorn.Model.Surrogates
 import Pyunicorn.Model.SurrogatesKernel
 import Pyunicorn.Model.SurrogatesKernelW
 import Pyunicorn.Model.SurrogatesObject
+import Pyunicorn.Model.SurrogatesMethod
+import Pyunicorn.Model.SurrogatesCoupling
+import Pyunicorn.Generated.StructC15
 /-! Line-protocol driver for C15 (surrogates).  Matrices: rows separated by `;`,
 an empty row is `-`, the empty matrix is `E`; lists of matrices separated by `|`
 (`E` alone = no matrix ... see `mats`). -/
@@ -60,6 +63,12 @@ def opOf (s : String) : Option Op :=
       some (.twinSurr dim.toNat! delay.toNat! ((rat? thr).getD 0) md.toNat! (pickOf (rats dr)))
   | _ => none
 
+def floatNormOps : NormOps Float := ⟨(· - ·), (· / ·), (· == 0)⟩
+
+def f32 (r : Rat) : Float32 := Float32.ofInt r.num / Float32.ofNat r.den
+
+def float32NormOps : NormOps Float32 := ⟨(· - ·), (· / ·), (· == 0)⟩
+
 def showRes : Res → String
   | .unit => "u"
   | .twins none => "raise"
@@ -88,6 +97,30 @@ def answer (toks : List String) : String :=
       match (ops.splitOn "~").mapM opOf with
       | none => "bad-request"
       | some os => join ((SObj.run (policyOf re km) (SObj.fresh (matOf rats d)) os).1.map showRes) "~"
+  | ["fmethod", re, im, ph] =>
+      -- the body of correlated_noise_surrogates as regenerated from the source, IEEE double
+      match fourierMethodCalls floatTrig Pyunicorn.Generated.StructC15.fourierBody (floatPairs re im)
+          ((matOf rats ph).map (·.map ratToFloat)) with
+      | some outs => join (outs.map showPairs) ";"
+      | none => "raise"
+  | ["cns", re, im, ph] =>
+      match cnsCalls floatTrig (floatPairs re im) ((matOf rats ph).map (·.map ratToFloat)) with
+      | some outs => join (outs.map showPairs) ";"
+      | none => "raise"
+  | ["normalize64", ms, ss, d] =>
+      match normalizeRows floatNormOps ((rats ms).map ratToFloat) ((rats ss).map ratToFloat)
+          ((matOf rats d).map (·.map ratToFloat)) with
+      | some out => showMat (fun r => join (r.map showFloat)) out
+      | none => "raise:IndexError"
+  | ["normalize32", ms, ss, d] =>
+      match normalizeRows float32NormOps ((rats ms).map f32) ((rats ss).map f32)
+          ((matOf rats d).map (·.map f32)) with
+      | some out => showMat (fun r => join (r.map fun x => showFloat x.toFloat)) out
+      | none => "raise:IndexError"
+  | ["cnsfacts"] =>
+      s!"{Pyunicorn.Generated.StructC15.cnsMirrorAxis} {Pyunicorn.Generated.StructC15.cnsInPlace}"
+  | ["rankof_model", s] => if decide (RankOf (rats s) (ranks (rats s))) then "1" else "0"
+  | ["rankof", s, idx] => if decide (RankOf (rats s) (nats idx)) then "1" else "0"
   | ["wrap", bits, x] => toString (wrapInt bits.toNat! ((ints x).headD 0))
   | ["white", d, p] => showOpt (showMat showRats) (whiteNoise (matOf rats d) (matOf nats p))
   | ["aaft", d, s] => showOpt (showMat showRats) (aaft (matOf rats d) (matOf rats s))
